@@ -1,12 +1,16 @@
 """C14 — basins are only followed when matching, acyclic and permitted.
 
 Worlds of 2-6 .rtdc files (token generator; file i carries tokens 20*i+j, so read-back data
-identifies the source file and the maps applied) in two directories, connected by basin
-definitions forming arbitrary directed graphs (self references, k-cycles, diamonds); run
-identifiers equal / prefix-extended / unrelated / missing; locations absolute / relative /
-dangling / URL; definitions of type file / remote / internal / unknown with every format string
-(matching or not).  Every world is opened from one root locally and through `RTDC_HTTP` (in-process
-fake session serving the same bytes, fake socket for the availability probe).  Observed:
+identifies the source file and the maps applied) in four directories (two with a sub directory,
+plus a directory symlink), connected by basin definitions forming arbitrary directed graphs (self
+references, k-cycles, diamonds); run identifiers equal / prefix-extended / unrelated / empty /
+missing, written with raw h5py in every HDF5 string flavour; locations absolute / sibling name /
+dangling / URL / spelled relative or absolute paths (`./`, `sub/../`, `../dir/`, symlinked
+directory or file); definitions of type file / remote / internal / unknown with every format
+string (matching or not).  Every world is a history within one process: up to four roots opened
+locally in random order and one through `RTDC_HTTP` (in-process fake session serving the same
+bytes, fake socket for the availability probe); each observation is compared with the
+history-free model.  Observed:
 `features_basin`, `feat in ds`, the data tokens of every feature, the files / URLs handed to
 `h5py.File` (wrapped from outside), the fake session's request log, wall clock.
 
@@ -19,6 +23,7 @@ raises; bounded time — and (2) exact comparison of features / data with the Le
 import copy
 import itertools
 import json
+import os
 import pathlib
 import shutil
 import socket
@@ -32,10 +37,12 @@ from . import common, gen
 
 ID = "C14"
 LEAN_MODULES = ["DclabModel.Properties.C14"]
-RULE = ("quick: 3 targeted worlds (remote definition with local path, basin without identifier "
-        "unmapped/mapped) + seeded random worlds over 2-6 files, 0-3 definitions per file drawn from "
-        "type x format x location x feature-list x mapping, identifiers from {equal, prefix, "
-        "unrelated, missing}; each world opened from a random root locally and via RTDC_HTTP. "
+RULE = ("quick: 6 targeted worlds (remote/internal definition with local path, basin without "
+        "identifier unmapped/mapped, mapped-then-unmapped histories) + seeded random worlds over 2-6 "
+        "files, 0-3 definitions per file drawn from type x format x location (incl. spelled paths "
+        "and symlinks) x feature-list x mapping, identifiers from {equal, prefix, unrelated, empty, "
+        "missing} x 6 HDF5 string flavours; each world opened as a history of up to 4 local roots "
+        "and one RTDC_HTTP root in one process. "
         "thorough: additionally every directed graph (incl. self loops) over <= 3 files with "
         "file-type definitions. A case is non-trivial when at least one definition is followed; "
         "distinct = distinct canonical (world, root) pairs.")
@@ -73,7 +80,21 @@ def L(xs):
     return ",".join(str(int(x)) for x in xs) if xs else "-"
 
 
+def eff_rid(rid):
+    """the measurement identifier dclab derives: the stored run identifier; an empty one is
+    ignored by the configuration parser and replaced by the md5-uuid of time_date_setup-id
+    (the same for all generated files); None = no identifier derivable"""
+    if rid == "":
+        import hashlib
+        import uuid
+        m = gen.BASE_META
+        text = f"{m['experiment']['time']}_{m['experiment']['date']}_{m['setup']['identifier']}"
+        return str(uuid.UUID(hex=hashlib.md5(text.encode("utf-8")).hexdigest()))
+    return rid
+
+
 def rid_codes(rid):
+    rid = eff_rid(rid)
     return "x" if rid is None else L(rid.encode())
 
 
@@ -99,6 +120,14 @@ class _FakeSock:
         pass
 
 
+class TooManyOpens(BaseException):
+    """raised by the h5py wrapper once an observation opened more datasets than any finite
+    resolution of the generated worlds needs (hard guard against unbounded recursion)"""
+
+
+OPEN_LIMIT = 400
+
+
 class Env:
     """fake session + fake socket + h5py.File wrapper"""
 
@@ -114,14 +143,19 @@ class Env:
             socket=_FakeSock, AF_INET=socket.AF_INET, SOCK_STREAM=socket.SOCK_STREAM,
             gaierror=socket.gaierror)
         self.opened = []
+        self.count = 0
         self._orig_init = h5py.File.__init__
         env = self
 
         def wrapped(self_, name, *a, **k):
             if isinstance(name, (str, bytes, pathlib.Path)):
                 env.opened.append(("local", str(name)))
+                env.count += 1
             elif hasattr(name, "url"):
                 env.opened.append(("url", str(name.url)))
+                env.count += 1
+            if env.count > OPEN_LIMIT:
+                raise TooManyOpens(f"more than {OPEN_LIMIT} datasets opened")
             return env._orig_init(self_, name, *a, **k)
 
         h5py.File.__init__ = wrapped
@@ -132,9 +166,15 @@ class Env:
 
 
 # --------------------------------------------------------------------------------- worlds
+#: directory ids of a world (relative to its root); `ld0` is a symlink to `d0`
+DIRS = {0: "d0", 1: "d1", 2: "d0/sub", 3: "d1/sub"}
+FLAVOURS = ["vlen", "vlen", "bytes", "fixutf8", "vlenascii", "pybytes"]
+
+
 class WFile:
-    def __init__(self, idx, d, rid, innate):
+    def __init__(self, idx, d, rid, innate, flavour="vlen"):
         self.idx, self.dir, self.rid = idx, d, rid
+        self.flavour = flavour                # HDF5 string flavour of the run identifier
         self.innate = innate                  # list of feature names
         self.maps = {}                        # K -> list
         self.internal = {}                    # feat -> tokens
@@ -146,7 +186,7 @@ class WFile:
 
 
 def describe_world(files):
-    return tuple((f.idx, f.dir, f.rid, tuple(f.innate), tuple(sorted(f.maps.items())) and
+    return tuple((f.idx, f.dir, f.rid, f.flavour, tuple(f.innate), tuple(sorted(f.maps.items())) and
                   tuple((k, tuple(v)) for k, v in sorted(f.maps.items())),
                   tuple((d["type"], d["format"], tuple(d["locs"]), tuple(d["feats"] or ("*",)),
                          d["map"]) for d in f.defs)) for f in files)
@@ -162,19 +202,23 @@ def rand_rid(rng, scheme):
         return "R-" + rng.choice("ab")
     if r < 0.8:
         return "R-" + rng.choice("ab") + "-c"
-    if r < 0.9:
+    if r < 0.88:
         return "Q" + rng.choice("xy")
+    if r < 0.92:
+        return ""
     return None
 
 
 def rand_locs(rng, files, j, style):
     """symbolic locations: ('abs', j) | ('rel', j) | ('dangling',) | ('url', j) | ('deadurl',)"""
+    sp = lambda st: ("sp", j, st, rng.randrange(1 << 16))  # noqa: E731
     if style == "path":
-        pool = [("abs", j), ("rel", j), ("dangling",), ("abs", j), ("rel", j)]
+        pool = [("abs", j), ("rel", j), ("dangling",), sp("rel"), sp("rel"), sp("abs")]
     elif style == "url":
         pool = [("url", j), ("url", j), ("deadurl",)]
     else:
-        pool = [("abs", j), ("rel", j), ("url", j), ("dangling",), ("deadurl",)]
+        pool = [("abs", j), ("rel", j), ("url", j), ("dangling",), ("deadurl",), sp("rel"),
+                sp("abs")]
     k = rng.choice([1, 1, 1, 2])
     return [rng.choice(pool) for _ in range(k)]
 
@@ -228,7 +272,8 @@ def random_world(rng):
     files = []
     for i in range(k):
         innate = sorted(rng.sample(FEATS, rng.randint(0, 3)))
-        files.append(WFile(i, 0 if rng.random() < 0.75 else 1, rand_rid(rng, scheme), innate))
+        files.append(WFile(i, rng.choice([0, 0, 0, 0, 1, 1, 2, 2, 3]), rand_rid(rng, scheme), innate,
+                           rng.choice(FLAVOURS)))
     for i in range(k):
         for _ in range(rng.choice([0, 1, 1, 2, 2, 3])):
             files[i].defs.append(rand_def(rng, files, i))
@@ -237,10 +282,13 @@ def random_world(rng):
 
 def graph_world(rng, k, edges):
     """plain file-type definitions along the given edge set (thorough, exhaustive graphs)"""
-    files = [WFile(i, 0, "R", sorted(rng.sample(FEATS, rng.randint(0, 2)))) for i in range(k)]
+    files = [WFile(i, rng.choice([0, 0, 1, 2]), "R", sorted(rng.sample(FEATS, rng.randint(0, 2))))
+             for i in range(k)]
     for (a, b) in edges:
         files[a].defs.append({"type": "file", "format": "hdf5",
-                              "locs": [rng.choice([("abs", b), ("rel", b)])], "feats": None,
+                              "locs": [rng.choice([("abs", b), ("sp", b, "rel", rng.randrange(1 << 16)),
+                                                   ("sp", b, "abs", rng.randrange(1 << 16))])],
+                              "feats": None,
                               "map": None, "name": f"g{a}-{b}"})
     return files
 
@@ -271,6 +319,19 @@ def targeted_worlds():
                    "map": 1, "name": "t22b"})
     a.maps[1] = [3, 3, 0, 1]
     out.append(("mapped-basin-without-identifier", [a, s], 0))
+    # histories: a mapped (prefix) and an unmapped definition to the same file from referrers
+    # with the same identifier, opened in both orders
+    for order in ((0, 1), (1, 0)):
+        x = WFile(2, 0, "R", ["pos_x", "pos_y"])
+        a = WFile(0, 0, "R-a", [])
+        b = WFile(1, 0, "R-a", [])
+        a.defs.append({"type": "file", "format": "hdf5", "locs": [("abs", 2)], "feats": None,
+                       "map": 0, "name": "h-mapped"})
+        a.maps[0] = [1, 3, 3, 0]
+        b.defs.append({"type": "file", "format": "hdf5", "locs": [("abs", 2)], "feats": None,
+                       "map": None, "name": "h-same"})
+        out.append((f"history-{order[0]}{order[1]}", [a, b, x],
+                    [(order[0], False), (order[1], False), (order[0], False)]))
     return out
 
 
@@ -281,17 +342,53 @@ class World:
         self.keys = {}          # key string -> int
 
     def path_of(self, f):
-        return self.root / f"d{f.dir}" / f"f{f.idx}.rtdc"
+        return self.root / DIRS[f.dir] / f"f{f.idx}.rtdc"
 
     def url_of(self, f):
-        return f"{HOST}/w{self.tag}/d{f.dir}/f{f.idx}.rtdc"
+        return f"{HOST}/w{self.tag}/{DIRS[f.dir]}/f{f.idx}.rtdc"
 
-    def loc_string(self, loc):
+    def spell(self, ref, j, style, seed):
+        """a path to file j, relative to the directory of `ref` or absolute, decorated with
+        no-op components (`./`, `sub/../`, `../<dir>/`), a symlinked directory (`ld0`) or a
+        symlinked file name (`l<j>.rtdc`, created next to its target)"""
+        tgt = self.files[j]
+        name = f"f{j}.rtdc"
+        if seed & 1:
+            name = f"l{j}.rtdc"
+            link = self.root / DIRS[tgt.dir] / name
+            if not link.is_symlink():
+                link.symlink_to(f"f{j}.rtdc")
+
+        def noop(d, bits):
+            """no-op components valid inside directory id d"""
+            out = []
+            if bits & 1:
+                out.append(".")
+            if bits & 2:
+                out += ["sub", ".."] if d in (0, 1) else ["..", "sub"]
+            if bits & 4:
+                out += ["..", DIRS[d].split("/")[-1]]
+            return out
+
+        if style == "rel":
+            rel = os.path.relpath(self.root / DIRS[tgt.dir], self.root / DIRS[ref.dir])
+            comps = noop(ref.dir, seed >> 1 & 7) + ([] if rel == "." else rel.split("/"))
+            comps += noop(tgt.dir, seed >> 4 & 7) + [name]
+            return "/".join(comps)
+        base = DIRS[tgt.dir]
+        if seed & 2 and base.startswith("d0"):
+            base = "l" + base                      # through the directory symlink
+        comps = base.split("/") + noop(tgt.dir, seed >> 4 & 7) + [name]
+        return str(self.root) + "/" + "/".join(comps)
+
+    def loc_string(self, loc, ref):
         kind = loc[0]
         if kind == "abs":
             return str(self.path_of(self.files[loc[1]]))
         if kind == "rel":
             return f"f{loc[1]}.rtdc"
+        if kind == "sp":
+            return self.spell(ref, loc[1], loc[2], loc[3])
         if kind == "dangling":
             return str(self.root / "nowhere" / "gone.rtdc")
         if kind == "url":
@@ -302,7 +399,9 @@ class World:
 
     def loc_model(self, loc):
         kind = loc[0]
-        if kind == "abs":
+        if kind in ("abs", "sp"):
+            # spelled paths are no-op decorations: they resolve (physically) to file j from the
+            # referrer's directory; the harness checks that with os.path.realpath when writing
             f = self.files[loc[1]]
             return f"a{f.dir}.{f.idx}"
         if kind == "rel":
@@ -319,8 +418,10 @@ class World:
         dclab = common.import_dclab()
         from dclab.util import hashobj
         import h5py
-        for d in (0, 1):
-            (self.root / f"d{d}").mkdir(parents=True, exist_ok=True)
+        for d in DIRS.values():
+            (self.root / d).mkdir(parents=True, exist_ok=True)
+        if not (self.root / "ld0").exists():
+            (self.root / "ld0").symlink_to("d0", target_is_directory=True)
         for f in self.files:
             f.path = self.path_of(f)
             gen.make_rtdc(f.path, f.tokens(), feats=[KEEP] + f.innate, rid=f.rid)
@@ -336,7 +437,13 @@ class World:
                           "type": d["type"],
                           "features": d["feats"],
                           "mapping": "same" if d["map"] is None else f"basinmap{d['map']}"}
-                    ls = [self.loc_string(x) for x in d["locs"]]
+                    ls = [self.loc_string(x, f) for x in d["locs"]]
+                    for x, text in zip(d["locs"], ls):
+                        if x[0] == "sp":
+                            base = text if os.path.isabs(text) else os.path.join(
+                                str(self.root / DIRS[f.dir]), text)
+                            assert os.path.realpath(base) == os.path.realpath(
+                                self.path_of(self.files[x[1]])), (text, x)
                     if d["type"] == "remote":
                         bd["urls"] = ls
                     else:
@@ -348,11 +455,27 @@ class World:
                         hw.write_text(grp, key, lines)
                     d["key"] = key
                     self.keys.setdefault(key, len(self.keys) + 1)
-            if f.rid is None:
-                with h5py.File(f.path, "a") as h5:
+            with h5py.File(f.path, "a") as h5:
+                # the run identifier in every HDF5 string flavour, written with raw h5py
+                if f.rid is None:
                     for a in ("setup:identifier", "experiment:run identifier"):
                         if a in h5.attrs:
                             del h5.attrs[a]
+                else:
+                    if "experiment:run identifier" in h5.attrs:
+                        del h5.attrs["experiment:run identifier"]
+                    key = "experiment:run identifier"
+                    if f.flavour == "bytes":
+                        h5.attrs[key] = np.bytes_(f.rid)      # fixed-length ASCII (np.bytes_)
+                    elif f.flavour == "fixutf8" and f.rid:
+                        h5.attrs.create(key, f.rid,
+                                        dtype=h5py.string_dtype("utf-8", len(f.rid) + 2))
+                    elif f.flavour == "vlenascii":
+                        h5.attrs.create(key, f.rid, dtype=h5py.string_dtype("ascii"))
+                    elif f.flavour == "pybytes":
+                        h5.attrs[key] = f.rid.encode()
+                    else:
+                        h5.attrs[key] = f.rid                 # variable-length UTF-8 str
         for f in self.files:
             self.env.ses.blobs[self.url_of(f)] = f.path.read_bytes()
 
@@ -428,7 +551,7 @@ class World:
                         tgt, tremote = None, None
                         if ctype == "file" and not is_remote:
                             # local paths may only be followed from datasets on the local disk
-                            if loc[0] == "abs":
+                            if loc[0] in ("abs", "sp"):
                                 tgt, tremote = loc[1], False
                             elif loc[0] == "rel" and self.files[loc[1]].dir == f.dir:
                                 tgt, tremote = loc[1], False
@@ -436,7 +559,8 @@ class World:
                             tgt, tremote = loc[1], True
                         if tgt is None:
                             continue
-                        if not id_ok(f.rid, self.files[tgt].rid, d["map"] is not None):
+                        if not id_ok(eff_rid(f.rid), eff_rid(self.files[tgt].rid),
+                                     d["map"] is not None):
                             continue
                         subs += walk(tgt, tremote, used_keys | {d["key"]}, depth + 1)
                 for s in subs:
@@ -464,6 +588,7 @@ def observe(env, world, root_idx, remote):
         ds = None
         try:
             env.opened.clear()
+            env.count = 0
             n_log = len(env.ses.log)
             if remote:
                 ds = RTDC_HTTP(world.url_of(f))
@@ -505,16 +630,17 @@ def observe(env, world, root_idx, remote):
     th.join(30)
     res["time"] = time.time() - t0
     res["hung"] = th.is_alive()
+    res["count"] = env.count
     return res
 
 
 def opened_model_names(world, opened):
     out = set()
-    bypath = {str(f.path): f for f in world.files}
+    bypath = {os.path.realpath(f.path): f for f in world.files}
     byurl = {world.url_of(f): f for f in world.files}
     for kind, name in opened:
         if kind == "local":
-            f = bypath.get(str(pathlib.Path(name)))
+            f = bypath.get(os.path.realpath(name))
             out.add(f"a{f.dir}.{f.idx}" if f else f"a?:{name}")
         else:
             f = byurl.get(name)
@@ -522,11 +648,15 @@ def opened_model_names(world, opened):
     return out
 
 
-def check_world(ctx, env, world, root_idx, label):
-    """observe locally and remotely, evaluate the oracles; returns (model lines, expectations)"""
+def check_world(ctx, env, world, roots, label):
+    """open the roots one after the other in this process (a history: what is accepted for one
+    referrer must not depend on what was opened before), evaluate the oracles on each;
+    returns (model lines, expectations)"""
     lines, expect = [], []
-    f = world.files[root_idx]
-    for remote in (False, True):
+    if isinstance(roots, int):
+        roots = [(roots, False), (roots, True)]
+    for step, (root_idx, remote) in enumerate(roots):
+        f = world.files[root_idx]
         obs = observe(env, world, root_idx, remote)
         followed = bool(obs["opened"])
         canon = (describe_world(world.files), root_idx, remote)
@@ -536,7 +666,9 @@ def check_world(ctx, env, world, root_idx, label):
         ctx.stat("root:remote" if remote else "root:local")
         ctx.stat(f"files:{len(world.files)}")
         replay = {"world": label, "root": root_idx, "remote": remote,
-                  "files": [{"idx": x.idx, "dir": x.dir, "rid": x.rid, "innate": x.innate,
+                  "roots": [list(r) for r in roots[:step + 1]],
+                  "files": [{"idx": x.idx, "dir": x.dir, "rid": x.rid, "flavour": x.flavour,
+                             "innate": x.innate,
                              "maps": {str(k): v for k, v in x.maps.items()},
                              "internal": x.internal,
                              "defs": [{k: v for k, v in d.items() if k != "key"} for d in x.defs]}
@@ -553,6 +685,13 @@ def check_world(ctx, env, world, root_idx, label):
                 ctx.hung = True
                 break
             continue
+        # (O3') bounded number of opened datasets (hard guard in the h5py wrapper)
+        if obs["count"] > OPEN_LIMIT:
+            ctx.stat("oracle:too-many-opens")
+            ctx.violation("spec", f"unbounded basin recursion: more than {OPEN_LIMIT} datasets "
+                                  f"opened while reading a world of {len(world.files)} files "
+                                  f"(last: {[o[1][-60:] for o in obs['opened'][-2:]]})", replay)
+            continue
         # (O1) remote never local
         names = opened_model_names(world, obs["opened"])
         local_opened = sorted(n for n in names if n.startswith("a"))
@@ -565,7 +704,7 @@ def check_world(ctx, env, world, root_idx, label):
         declared = {world.url_of(f)} if remote else set()
         for x in world.files:
             for d in x.defs:
-                declared |= {world.loc_string(l) for l in d["locs"]}
+                declared |= {world.loc_string(l, x) for l in d["locs"]}
         stray = [u for u in obs.get("urls", []) if u not in declared]
         if stray:
             ctx.violation("spec", f"URLs requested that no basin definition declares: {stray[:2]}",
@@ -627,9 +766,18 @@ def all_worlds(ctx):
         for bits in range(2 ** len(pairs)):
             edges = [p for n, p in enumerate(pairs) if bits >> n & 1]
             yield f"graph3-{bits}", graph_world(ctx.rng, k, edges), 0
-    for n in range(ctx.n(600, 6000)):
+    for n in range(ctx.n(330, 3300)):
         files = random_world(ctx.rng)
-        yield f"rand{n}", files, ctx.rng.randrange(len(files))
+        yield f"rand{n}", files, random_roots(ctx.rng, files)
+
+
+def random_roots(rng, files):
+    """a history of roots: up to four files opened locally in random order (repeats allowed)
+    and one through RTDC_HTTP somewhere in between"""
+    k = len(files)
+    roots = [(rng.randrange(k), False) for _ in range(min(k, 4))]
+    roots.insert(rng.randrange(len(roots) + 1), (rng.randrange(k), True))
+    return roots
 
 
 def run(ctx):
@@ -712,7 +860,7 @@ def extended_search(ctx, seconds=60):
                 world.write()
             except Exception:
                 continue
-            check_world(ctx, env, world, ctx.rng.randrange(len(files)), f"search{n}")
+            check_world(ctx, env, world, random_roots(ctx.rng, files), f"search{n}")
             shutil.rmtree(world.root, ignore_errors=True)
             if any(v["kind"] == "spec" for v in ctx.violations) or getattr(ctx, "hung", False):
                 break
@@ -730,7 +878,7 @@ def replay(ctx, data):
         return bool(ctx.violations)
     files = []
     for x in rp["files"]:
-        f = WFile(x["idx"], x["dir"], x["rid"], x["innate"])
+        f = WFile(x["idx"], x["dir"], x["rid"], x["innate"], x.get("flavour", "vlen"))
         f.maps = {int(k): v for k, v in x["maps"].items()}
         f.internal = x["internal"]
         f.defs = [dict(d, locs=[tuple(z) for z in d["locs"]]) for d in x["defs"]]
@@ -739,7 +887,8 @@ def replay(ctx, data):
     try:
         world = World(ctx, env, 0, files)
         world.write()
-        lines, expect = check_world(ctx, env, world, rp["root"], rp.get("world", "replay"))
+        roots = [tuple(r) for r in rp.get("roots") or [(rp["root"], False), (rp["root"], True)]]
+        lines, expect = check_world(ctx, env, world, roots, rp.get("world", "replay"))
         ml = world.model_lines()
     finally:
         env.close()
